@@ -20,6 +20,23 @@ pub fn stub_format(_args: core::fmt::Arguments<'_>) -> String {
     String::new()
 }
 
+/// `FieldType::Json` is not under contract, and no harness declares a `Json`
+/// type, so the `Json` arms of `normalize_at` / `extract_at` are dead code here.
+/// CBMC's symbolic execution nevertheless walks into them whenever it cannot
+/// constant-fold a type tag read through the heap (measured: serde
+/// deserialization + BTreeMap drop glue, > 10 min). Their two entry points are
+/// therefore replaced by stubs that FAIL the run if they are ever reached.
+pub fn stub_try_into_cbor(v: FieldValue) -> Result<Cbor, SchemaError> {
+    core::mem::forget(v);
+    assert!(false, "C13: FieldValue::try_into_cbor reached (Json arm, not under contract)");
+    Ok(Cbor::Null)
+}
+pub fn stub_json_from(v: Cbor) -> Result<FieldValue, SchemaError> {
+    core::mem::forget(v);
+    assert!(false, "C13: FieldValue::json_from reached (Json arm, not under contract)");
+    Ok(FieldValue::Null)
+}
+
 /// IEEE-754: `x` is a number an `f32` can hold exactly (so it is the CBOR
 /// read-back of that f32). Stated on the binary64 bit pattern, independent of
 /// the `as f32` / `f64::from` casts the code uses:
@@ -278,33 +295,6 @@ pub fn spec_extracted(c: &Cbor, v: &FieldValue) -> bool {
         }
         (Cbor::Bytes(a), FieldValue::Bytes(b)) => same_bytes(a, b),
         (Cbor::Text(a), FieldValue::Text(b)) => same_bytes(a.as_bytes(), b.as_bytes()),
-        (Cbor::Array(a), FieldValue::Array(b)) => {
-            if a.len() != b.len() {
-                return false;
-            }
-            let mut i = 0;
-            while i < a.len() {
-                if !spec_extracted(&a[i], &b[i]) {
-                    return false;
-                }
-                i += 1;
-            }
-            true
-        }
-        (Cbor::Array(a), FieldValue::Vector(b)) => {
-            if a.len() != b.len() {
-                return false;
-            }
-            let mut i = 0;
-            while i < a.len() {
-                match &a[i] {
-                    Cbor::Integer(n) if i128::from(*n) == b[i].to_bits() as i128 => {}
-                    _ => return false,
-                }
-                i += 1;
-            }
-            true
-        }
         _ => false,
     }
 }
